@@ -1,7 +1,7 @@
 use std::cmp::Ordering;
 use std::fmt::Display;
 
-use rusty_bit_vec::{MIN_INTEGER, MIN_LONG};
+use rusty_bit_vec::{MAX_INTEGER, MAX_LONG, MIN_INTEGER, MIN_LONG};
 
 use crate::fit::FitToType;
 use crate::{UserDefinedTypeValue, VArray, qb_and, qb_or};
@@ -101,6 +101,25 @@ macro_rules! div {
             Ok(($nom as $cast / $div as $cast).fit_to_type())
         }
     };
+}
+
+/// The result of an operation on two INTEGER operands: it must be an INTEGER.
+fn checked_integer(value: i64) -> Result<Variant, VariantError> {
+    if value >= MIN_INTEGER as i64 && value <= MAX_INTEGER as i64 {
+        Ok(Variant::VInteger(value as i32))
+    } else {
+        Err(VariantError::Overflow)
+    }
+}
+
+/// The result of an operation with a LONG operand: it must be a LONG.
+/// The operands are in the LONG range, so the i64 arithmetic cannot wrap.
+fn checked_long(value: i64) -> Result<Variant, VariantError> {
+    if (MIN_LONG..=MAX_LONG).contains(&value) {
+        Ok(Variant::VLong(value))
+    } else {
+        Err(VariantError::Overflow)
+    }
 }
 
 // TODO implement standard operators with panics, let the linter guarantee the type compatibility
@@ -217,12 +236,12 @@ impl Variant {
                 _ => Err(VariantError::TypeMismatch),
             },
             Self::VInteger(i_left) => match other {
-                Self::VInteger(i_right) => Ok(Self::VInteger(i_left + i_right)),
-                Self::VLong(l_right) => Ok(Self::VLong(i_left as i64 + l_right)),
+                Self::VInteger(i_right) => checked_integer(i_left as i64 + i_right as i64),
+                Self::VLong(l_right) => checked_long(i_left as i64 + l_right),
                 _ => other.plus(self),
             },
             Self::VLong(l_left) => match other {
-                Self::VLong(l_right) => Ok(Self::VLong(l_left + l_right)),
+                Self::VLong(l_right) => checked_long(l_left + l_right),
                 _ => other.plus(self),
             },
             _ => Err(VariantError::TypeMismatch),
@@ -245,12 +264,12 @@ impl Variant {
                 _ => other.minus(self).and_then(|x| x.negate()),
             },
             Self::VInteger(i_left) => match other {
-                Self::VInteger(i_right) => Ok(Self::VInteger(i_left - i_right)),
-                Self::VLong(l_right) => Ok(Self::VLong(i_left as i64 - l_right)),
+                Self::VInteger(i_right) => checked_integer(i_left as i64 - i_right as i64),
+                Self::VLong(l_right) => checked_long(i_left as i64 - l_right),
                 _ => other.minus(self).and_then(|x| x.negate()),
             },
             Self::VLong(l_left) => match other {
-                Self::VLong(l_right) => Ok(Self::VLong(l_left - l_right)),
+                Self::VLong(l_right) => checked_long(l_left - l_right),
                 _ => other.minus(self).and_then(|x| x.negate()),
             },
             _ => Err(VariantError::TypeMismatch),
@@ -273,12 +292,12 @@ impl Variant {
                 _ => other.multiply(self),
             },
             Self::VInteger(i_left) => match other {
-                Self::VInteger(i_right) => Ok(Self::VInteger(i_left * i_right)),
-                Self::VLong(l_right) => Ok(Self::VLong(i_left as i64 * l_right)),
+                Self::VInteger(i_right) => checked_integer(i_left as i64 * i_right as i64),
+                Self::VLong(l_right) => checked_long(i_left as i64 * l_right),
                 _ => other.multiply(self),
             },
             Self::VLong(l_left) => match other {
-                Self::VLong(l_right) => Ok(Self::VLong(l_left * l_right)),
+                Self::VLong(l_right) => checked_long(l_left * l_right),
                 _ => other.multiply(self),
             },
             _ => Err(VariantError::TypeMismatch),
